@@ -274,7 +274,8 @@ impl<S: Read> Master<S> {
                 .cli
                 .take
                 .filter(|_| index == 0)
-                .map(|take| (self.cli.skip + take) as usize);
+                .and_then(|take| self.cli.skip.checked_add(take))
+                .and_then(|rows| usize::try_from(rows).ok());
             process = sorter.create_processor(process, max_size);
         }
         if self.cli.unique {
